@@ -5,7 +5,8 @@ from ..facts import fmt_sym, fmt_lit
 from ..panics import run_e1
 from ..tables import match_table
 
-ENTRY = (r'^crypto::user_identity::(decrypt_user_identity_token_password|legacy_password_decrypt|verify_x509_identity_token)$'
+ENTRY = (r'^crypto::user_identity::(decrypt_user_identity_token_password|legacy_password_decrypt|verify_x509_identity_token|make_user_name_identity_token|legacy_password_encrypt)$'
+         r'|^crypto::pkey::PKey::<openssl::pkey::Public>::public_encrypt$'
          r'|^crypto::pkey::PKey::<openssl::pkey::Private>::private_decrypt$')
 
 
@@ -38,6 +39,30 @@ def run(ctx):
                 r.ok(rule, 'legacy_password_decrypt:Ok', 'Ok(password) only when the embedded nonce equals server_nonce and the length prefix matched', loc=b.loc)
             else:
                 r.fail(rule, 'legacy_password_decrypt:Ok', 'password accepted without %s' % ('the nonce equality' if not nonce else 'the length-prefix check'), loc=b.loc)
+    # ---------------- (2b) the cipher-text buffer is sized from the very buffer that gets encrypted
+    rule = 'buffer-size-agreement'
+    eb = db.body('crypto::user_identity::legacy_password_encrypt')
+    if eb is None:
+        r.lost(rule, 'legacy_password_encrypt', 'not found')
+    else:
+        Fe = ctx.facts(eb)
+        cc = [c for c in eb.calls() if c.callee.endswith('calculate_cipher_text_size')]
+        pe = [c for c in eb.calls() if c.callee.endswith('::public_encrypt')]
+        fe = [c for c in eb.calls() if c.callee.endswith('from_elem')]
+        if len(cc) != 1 or len(pe) != 1 or len(fe) < 2:
+            r.lost(rule, 'calls', 'expected calculate_cipher_text_size, public_encrypt and two buffers in legacy_password_encrypt')
+        else:
+            size_arg = fmt_sym(eb, Fe.sym_operand(cc[0].args[1]))
+            src_txt = fmt_sym(eb, Fe.sym_operand(pe[0].args[1]))
+            plain_sizes = [fmt_sym(eb, Fe.sym_operand(c.args[1])) for c in fe]
+            # the plaintext buffer is the vec that (through the cursor) becomes the src of public_encrypt
+            same = size_arg in plain_sizes and ('src' in src_txt or 'from_elem' in src_txt or 'into_inner' in src_txt)
+            dst_sized = any('calculate_cipher_text_size' in ps for ps in plain_sizes)
+            if same and dst_sized:
+                r.ok(rule, 'cipher-buffer', 'calculate_cipher_text_size is given the length of the plaintext buffer and sizes the destination buffer', detail=size_arg[:120], loc=cc[0].loc)
+            else:
+                r.fail(rule, 'cipher-buffer', 'the cipher text buffer is not sized from the length of the buffer that is encrypted (public_encrypt would write past it at block boundaries)',
+                       detail='size arg: %s; buffers: %s' % (size_arg[:100], [p[:60] for p in plain_sizes]), loc=cc[0].loc)
     # ---------------- (3)
     rule = 'algorithm-table'
     SP = 'crypto::security_policy::SecurityPolicy::'
